@@ -20,6 +20,30 @@ CHECKS = {
                      "Known finding D5: iter(mode=\"match\")."),
 }
 
+E2_NOTE = ("Trusted base: rustc 1.95 as the judge (each case is its own crate compiled to an object file with -C link-dead-code so that "
+           "constants of unused items are evaluated), the Python case generators and their reference predicates. Bounds: the finite "
+           "menus/grammars listed in DESIGN.md §5; why a case was rejected (derive vs rustc) is recorded but not asserted.")
+E3_NOTE = ("Trusted base: rustc/cargo 1.95, the Python generator of enum declarations (its discriminant evaluator is cross-checked against "
+           "the compiler's `v as repr` in every run), the driver's Vec reference model.")
+CHECKS.update({
+    "C11": dict(engine="E3 subjects+driver", design="§5 C11", note=E3_NOTE,
+                technique="bounded-exhaustive grammar enumeration of in-domain declarations (implicit/explicit mixes to n<=3/4 over a boundary value set, 80+ literal spelling styles, sizes, foreign attributes) derived by the real macro and checked at run time against `v as repr`",
+                text="Every declaration of the grammar is in the documented domain by construction; each must compile with the real derive and at run time "
+                     "into/try_from/iter/MIN/MAX/next/as_str must agree with the compiler's discriminants (reference evaluator cross-checked per subject)."),
+    "C12": dict(engine="E2 rustc oracle", design="§5 C12", note=E2_NOTE,
+                technique="bounded-exhaustive mutation grammar over declarations (item kinds, fields, discriminant expression grammar to depth 2 in each position, out-of-i64 values, repr forms, 65535+ variants), every case judged by rustc",
+                text="Each case breaks exactly one documented rule starting from a base that is checked to compile; the case must fail to compile. "
+                     "Exhaustive over the stated menu."),
+    "C13": dict(engine="E2 rustc oracle", design="§5 C13", note=E2_NOTE,
+                technique="bounded-exhaustive mutation menu over attribute contents (unknown features/parameters closedness matrix, duplicates, bad mode/vis values, wrong kinds, contradictions, variant-level attributes), every case judged by rustc",
+                text="Each case is one change away from a legal parent (parents are checked to compile) on a gapless and a with-holes enum, in one or "
+                     "several attributes; every mutated case must fail to compile."),
+    "C14": dict(engine="E2 rustc oracle", design="§5 C14", note=E2_NOTE,
+                technique="exhaustive enumeration of all n! declaration orders (n<=3/4) x implicit/explicit patterns x name assignments x sorted forms, rustc accept/reject compared with the reference predicate",
+                text="compiles <=> strictly ascending discriminants (sorted(value)) / strictly ascending byte-wise names after renaming (sorted(name)) / both; "
+                     "without sorted every order compiles."),
+})
+
 ENGINES = [
     {"name": "E1 xpand", "path": "engines/xpand, engines/vendor/proc-macro-error, lib/e1.py",
      "serves_properties": ["C09", "C10", "C15", "C17", "C19"],
